@@ -25,7 +25,7 @@ import srvkit
 
 common.repo_on_path()
 
-SETTLE = 5.0
+SETTLE = 20.0
 
 
 class PeerSock(srvkit.FakeSock):
